@@ -91,6 +91,8 @@ def tokenize(s):
     return toks
 
 QUIET_UNITS = {'tgold'}
+TABLE_UNITS = {'bb'}
+CLAMP_UNITS = {'fermi'}   # its only comparison: if (E < 50e-6) E = 50e-6
 SHAPE_UNITS = {'beta', 'beta1', 'beta2', 'beta_1fu'}
 
 
@@ -308,6 +310,13 @@ class Transpiler:
                 return ('QCMP_%s(%s, %s, %d)' % (self.REL[op], l[0], r[0], self.curline), 'bool')
             # rejection tests of the beta samplers compare against Fermi-function-weighted spectra, where the
             # reference's short constants (0.511, 3.1415927) are worth up to ~5e-5 relative: own margin class
+            # a clamp (if (x < c) x = c) is continuous in its comparison: logged for threshold discovery, no margin
+            if getattr(self, 'force_clamp', False) or (getattr(self, 'u', None) is not None and self.u.name.lower() in CLAMP_UNITS):
+                return ('CCMP_%s(%s, %s, %d)' % (self.REL[op], l[0], r[0], self.curline), 'bool')
+            # comparisons of the double-beta kernel against its tabulated / integrated spectra: their noise level is measured
+            # per configuration (first-lepton table of port vs model) and must not be charged to branch decisions elsewhere
+            if getattr(self, 'u', None) is not None and self.u.name.lower() in TABLE_UNITS:
+                return ('TCMP_%s(%s, %s, %d)' % (self.REL[op], l[0], r[0], self.curline), 'bool')
             if getattr(self, 'u', None) is not None and self.u.name.lower() in SHAPE_UNITS:
                 return ('SCMP_%s(%s, %s, %d)' % (self.REL[op], l[0], r[0], self.curline), 'bool')
             return ('CMP_%s(%s, %s, %d)' % (self.REL[op], l[0], r[0], self.curline), 'bool')
@@ -618,7 +627,14 @@ class Transpiler:
         if ns.startswith('if('):
             i = t.lower().index('(')
             j = self.find_close(t, i)
+            # running maximum / minimum and clamps: "if (x .gt. m) m = x", "if (x .lt. c) x = c" are continuous in their
+            # comparison (a near-tie changes the result by the size of the tie): no robustness margin
+            cs = re.sub(r'\s+', '', t[i + 1:j].lower())
+            rs = re.sub(r'\s+', '', t[j + 1:].lower())
+            mm = re.match(r'^(.+)\.(gt|ge|lt|le)\.(.+)$', cs)
+            self.force_clamp = bool(mm and '.and.' not in cs and '.or.' not in cs and rs in (mm.group(3) + '=' + mm.group(1), mm.group(1) + '=' + mm.group(3)))
             cond = self.expr(u, t[i + 1:j])[0]
+            self.force_clamp = False
             rest = t[j + 1:].strip()
             rl = rest.lower()
             if rl == 'then':
